@@ -3,6 +3,7 @@
 package main
 
 import (
+	"syscall"
 	"bufio"
 	"encoding/json"
 	"os"
@@ -19,6 +20,9 @@ func main() {
 		panic(err)
 	}
 	d := NewDevice(sc)
+	if sc.LockFile != "" {
+		d.Probe = func() bool { return tryLock(sc.LockFile) }
+	}
 	d.Start()
 	flush := func() {
 		os.Stdout.WriteString(d.Buf)
@@ -39,10 +43,27 @@ func main() {
 			trace.WriteString(line)
 		}
 		d.Send(line)
+		if d.LockFree && trace != nil {
+			trace.WriteString("<<LOCK-FREE>>\n")
+			d.LockFree = false
+		}
 		flush()
 		if d.Dead {
 			time.Sleep(50 * time.Millisecond)
 			return
 		}
 	}
+}
+
+func tryLock(p string) bool {
+	fh, err := os.OpenFile(p, os.O_CREATE|os.O_RDONLY, 0644)
+	if err != nil {
+		return true
+	}
+	defer fh.Close()
+	if err := syscall.Flock(int(fh.Fd()), syscall.LOCK_EX|syscall.LOCK_NB); err != nil {
+		return false
+	}
+	syscall.Flock(int(fh.Fd()), syscall.LOCK_UN)
+	return true
 }
